@@ -9,7 +9,7 @@ def known_matcher(d):
 
 
 CFG = {
-    "modules": ["HumphreyModel.Props.C01", "HumphreyModel.Props.C01Spec"],
+    "modules": ["HumphreyModel.Props.C01", "HumphreyModel.Props.C01Spec", "HumphreyModel.Props.C01Stream"],
     "rule": "connections against the real client_handler (hook verif_client_handler) on a scripted socket: sequences of "
             "1..6 requests over {GET,POST,PUT,DELETE,OPTIONS} x {routed, unrouted, CORS-configured, body-echoing, "
             "empty-body, panicking handler, host-specific} x Connection {keep-alive in any case, close, absent} x "
@@ -40,7 +40,10 @@ CFG = {
                   "executable spec checkConn — all branches: 408, 400, disconnect, upgrade, OPTIONS, unrouted 404, handler "
                   "response, handler panic, keep-alive continuation and close — up to the recorded CRLF pad; the only extra "
                   "hypothesis is NoBareCR (no bare CR in an echoed version / Connection value: the real parser accepts and "
-                  "echoes it, outside the property's quantifier). The same checkConn judges the IMPLEMENTATION's output in "
+                  "echoes it, outside the property's quantifier); Props/C01Stream.lean discharges it from a condition on the "
+                  "BYTE STREAM: serve_meets_spec_clean_stream (no CR followed by a non-LF byte anywhere) and "
+                  "serve_meets_spec_clean_heads (the condition only on the heads of the requests the loop really frames, "
+                  "bodies arbitrary), and bare_cr_stream_violates_spec proves the hypothesis necessary (`GET / A\\rB`). The same checkConn judges the IMPLEMENTATION's output in "
                   "every correspondence case.",
     "level_note": "Trusted: Lean kernel; Model/Conn.lean tied to app.rs by byte-exact comparison of everything written. "
                   "Known finding: CRLF after a non-empty body (shared with C07).",
